@@ -20,7 +20,7 @@ import base64
 import copy
 
 from sim import client as simclient
-from sim import crash, gen, kernel, mutate, reqs, world
+from sim import crash, gen, kernel, mutate, reqs, serverworld, world
 
 ID = 'C20'
 LEVEL = 'exploration'
@@ -40,12 +40,17 @@ RULE = ('plan = history of 8-24 steps by 2 identities: object creation '
 PROBES = ['exception_records', 'disk_error_during_commit', 'decode_failure',
           'auth_failure', 'response_too_large', 'general_failure',
           'client_library_ops', 'server_generated_canary',
-          'password_credential', 'records_scanned']
+          'password_credential', 'records_scanned',
+          'server_front_end_runs', 'server_log_lines']
 REAL_VS_STUB = {
     'real': ['every logger call in kmip.services.server.*, '
              'kmip.services.kmip_client / kmip_protocol, kmip.pie.client',
              'SQLAlchemy exception texts (statement parameters)',
              'engine, session, crypto engine, client library'],
+    'real (every 4th plan)': ['KmipServer.__init__/_setup_logging/start/'
+                              'serve/_setup_connection_handler, '
+                              'KmipServerConfig on a real configuration '
+                              'file, RotatingFileHandler log file (scanned)'],
     'stub': ['logging handlers -> one collecting root handler at INFO',
              'disk errors -> LD_PRELOAD shim', 'TLS/clock/entropy/RSA pool'],
 }
@@ -159,7 +164,13 @@ def generate(rng, tier, index):
                           'ver': list(r.choice(gen.VERSIONS)),
                           'value': ctx.rbytes(32),
                           'data': ctx.rbytes(32)})
-    return {'actors': actors, 'seed': r.randrange(1 << 30), 'steps': steps}
+    plan = {'actors': actors, 'seed': r.randrange(1 << 30), 'steps': steps}
+    if index % 4 == 3:
+        # the real KmipServer front end: logger levels and the log file as
+        # the server sets them up from its configuration file (logging
+        # level left to its default, or INFO spelled out)
+        plan['server'] = {'logging_level': r.choice([None, None, 'INFO'])}
+    return plan
 
 
 def collect_canaries(obj, out):
@@ -195,7 +206,12 @@ def execute(plan):
                'noeku': {'cn': 'x', 'eku': None}}
     actors = list(plan['actors']) + [special['nocert'], special['twocn'],
                                      special['noeku']]
-    W = world.World(actors, None, seed=plan['seed'])
+    if plan.get('server') is not None:
+        W = serverworld.ServerWorld(actors, None, seed=plan['seed'],
+                                    server_opts=plan['server'])
+        probes['server_front_end_runs'] += 1
+    else:
+        W = world.World(actors, None, seed=plan['seed'])
     kernel.LOG.keep_level = 20
     records = []
 
@@ -352,6 +368,12 @@ def execute(plan):
             if exc:
                 nexc += 1
                 texts.append((name, lv, exc))
+        if plan.get('server') is not None:
+            # what the server itself wrote to its log file, at the level
+            # its own configuration gave the 'kmip.server' logger
+            for line in W.server_log_text().splitlines():
+                texts.append(('server.log', 0, line))
+                probes['server_log_lines'] += 1
         probes['exception_records'] = nexc
         probes['records_scanned'] = len(texts)
         forms = []
@@ -361,7 +383,7 @@ def execute(plan):
         for name, lv, text in texts:
             for f, cv in forms:
                 if f in text:
-                    flag('secret-in-log', where=name.rsplit('.s', 1)[0]
+                    flag('secret-in-log', where='kmip.server.session'
                          if name.startswith('kmip.server.session') else name,
                          level=lv, canary=cv[:12] + '...',
                          excerpt=text[max(0, text.index(f) - 80):
